@@ -170,6 +170,30 @@ def emit_blocks(out: Out, nodes: Sequence[Dict[str, Any]], base: int, rst: bool,
             out.put(0, "")
             for x in verb_lines(n, templates):
                 out.put(ind[n["lv"]] + 3, x)
+        elif t == "version":
+            if not rst:
+                raise NotExpressible("epytext has no version directives")
+            w = [word(k) for k in n["w"]]
+            out.sep()
+            out.put(ind[n["lv"]], f".. {n['dir']}:: 1.2" + (f" {w[0]} {w[1]}" if n["var"] in (1, 2) else ""))
+            if n["var"] == 2:
+                out.put(0, "")
+                out.put(ind[n["lv"]] + 3, f"{w[2]} {w[3]}")
+                out.put(0, "")
+                out.put(ind[n["lv"]] + 3, w[4])
+            elif n["var"] == 3:
+                out.put(0, "")
+                out.put(ind[n["lv"]] + 3, f"{w[0]} {w[1]}")
+        elif t == "poison":
+            # parses, but cannot be turned into HTML: the docstring is then shown as plain text
+            w = [word(k) for k in n["w"]]
+            out.sep()
+            if rst:
+                out.put(ind[n["lv"]], ".. raw:: html")
+                out.put(0, "")
+                out.put(ind[n["lv"]] + 3, f"<br> {w[0]} {w[1]}")
+            else:
+                out.put(ind[n["lv"]], f"{w[0]}\x0c{w[1]}")
         elif t == "head":
             title = " ".join(word(k) for k in n["w"])
             out.sep()
@@ -483,11 +507,12 @@ def observe(html: str) -> Dict[str, Any]:
         return res
 
     return {"body": words_of(body_text(root)), "pre": body_pre(root), "rows": rows, "adm": adms,
-            "all": root.all_text()}
+            "all": root.all_text(), "allwords": words_of(root.spaced_text())}
 
 
 # =============================================================================== the real pipeline
 PARAMS = "pa, pb, *va, **kw"
+STALE = "wq900x wq901x"          # vocabulary-shaped words of a docstring that must NOT be shown
 
 
 def make_source(cases: Sequence[Tuple[Any, ...]]) -> str:
@@ -497,6 +522,18 @@ def make_source(cases: Sequence[Tuple[Any, ...]]) -> str:
     for case in cases:
         name, host, ds = case[:3]
         inlines = case[3] if len(case) > 3 else {}
+        how = case[4] if len(case) > 4 else "direct"
+        if how == "inherited":
+            # the rendered method overrides the documented one and has no docstring of its own
+            body8 = "\n".join(("        " + ln) if ln else "" for ln in ds.split("\n"))
+            src.append(f"class {name}b:\n    def f(self, {PARAMS}):\n        r\"\"\"\n{body8}\n        \"\"\"\n\n"
+                       f"class {name}({name}b):\n    def f(self, {PARAMS}):\n        return 0\n")
+            continue
+        final = ds
+        if how == "assigned":
+            # a stale docstring of its own first (parsed during the build for classes and properties), the final one
+            # through an assignment to __doc__ (taken as it is: no margin to remove)
+            ds = STALE
         if '"""' in ds or "\\" in ds:
             raise MachineryError("generated docstring cannot be written as a raw triple-quoted string")
         body = "\n".join(("    " + ln) if ln else "" for ln in ds.split("\n"))
@@ -510,6 +547,9 @@ def make_source(cases: Sequence[Tuple[Any, ...]]) -> str:
         else:
             own = "".join(f"    {v} = 1\n    r\"\"\"{t}\"\"\"\n" for v, t in inlines.items())
             src.append(f"class {name}:\n    r\"\"\"\n{body}\n    \"\"\"\n{own}    def __init__(self, {PARAMS}):\n        pass\n")
+        if how == "assigned":
+            target = f"{name}.p" if host == "property" else name
+            src.append(f"{target}.__doc__ = r\"\"\"{final}" + ("\n" if final.endswith('"') else "") + "\"\"\"\n")
     return "\n".join(src)
 
 
@@ -543,7 +583,8 @@ def render_batch(fmt: str, cases: Sequence[Dict[str, Any]]) -> List[Dict[str, An
     system = make_system(fmt)
     builder = system.systemBuilder(system)
     in_mod = [c for c in cases if c["host"] != "module"]
-    builder.addModuleString(make_source([(f"o{c['id']}", c["host"], c["docstring"], c.get("inlines", {})) for c in in_mod]), "m")
+    builder.addModuleString(make_source([(f"o{c['id']}", c["host"], c["docstring"], c.get("inlines", {}), c.get("how", "direct"))
+                                         for c in in_mod]), "m")
     for c in cases:
         if c["host"] == "module":
             body = c["docstring"]
@@ -554,7 +595,8 @@ def render_batch(fmt: str, cases: Sequence[Dict[str, Any]]) -> List[Dict[str, An
     builder.buildModules()
     # messages of the build phase (class / module docstrings are parsed there), attributed to the object whose source
     # lines they point into (messages carry "<module>:<line>:")
-    starts = sorted((system.allobjects[f"m.o{c['id']}"].linenumber, f"m.o{c['id']}") for c in in_mod)
+    starts = sorted((system.allobjects[f"m.o{c['id']}" + ("b" if c.get("how") == "inherited" else "")].linenumber, f"m.o{c['id']}")
+                    for c in in_mod)
     by_obj: Dict[str, List[str]] = {}
     for (_, m) in system.log:
         mm = re.match(r"^(\w+):(\d+): ", m)
@@ -574,6 +616,8 @@ def render_batch(fmt: str, cases: Sequence[Dict[str, Any]]) -> List[Dict[str, An
             full += ".p"
         elif c["host"] == "attribute":
             full += ".a"
+        if c.get("how") == "inherited":
+            full += ".f"
         obj = system.allobjects[full]
         n0 = len(system.log)
         # an attribute's type is rendered in its header, before its docstring
@@ -585,7 +629,8 @@ def render_batch(fmt: str, cases: Sequence[Dict[str, Any]]) -> List[Dict[str, An
             ao = system.allobjects.get(f"{full}.{a}")
             if ao is not None:
                 attr_html[a] = flatten(epydoc2stan.format_docstring(ao))
-        res.append({"docstring": obj.docstring, "html": html, "attr_html": attr_html, "type_html": type_html,
+        held = system.allobjects[f"m.o{c['id']}b.f"].docstring if c.get("how") == "inherited" else obj.docstring
+        res.append({"docstring": held, "html": html, "attr_html": attr_html, "type_html": type_html,
                     "log": build_log + [m for (_, m) in system.log[n0:]]})
     return res
 
@@ -636,6 +681,11 @@ def whole_run(scratch: Any, fmt: str, cases: Sequence[Dict[str, Any]]) -> List[O
 
 
 # =============================================================================== the verdict (property C09)
+def subsequence(needle: Sequence[str], hay: Sequence[str]) -> bool:
+    it = iter(hay)
+    return all(any(x == y for y in it) for x in needle)
+
+
 def contiguous(needle: Sequence[str], hay: Sequence[str]) -> bool:
     n = len(needle)
     return n == 0 or any(list(hay[i:i + n]) == list(needle) for i in range(len(hay) - n + 1))
@@ -664,6 +714,14 @@ def judge(rec: Dict[str, Any], fmt: str, docstring: str, r: Dict[str, Any],
         return bad
     ob = observe(r["html"])
     log = r["log"]
+    fault = rec.get("fault", -1)
+    if fault == 0:
+        # the description cannot be turned into HTML: the fallback shows the docstring as plain text - every word of it,
+        # in order (what could be extracted as fields may be shown once more)
+        want = [word(i) for i in rec["all"]]
+        if not subsequence(want, ob["allwords"]):
+            bad.append({"invariant": "FallbackShowsText", "expected": want, "observed": ob["allwords"], "warnings": log})
+        return bad
     exp_body = [word(i) for i in rec["text"]]
     exp_pre = [norm_block(verb_text(v)) for v in rec["verbatim"]]
     # a property's return field whose docstring has no description of its own is presented AS the description
@@ -684,7 +742,10 @@ def judge(rec: Dict[str, Any], fmt: str, docstring: str, r: Dict[str, Any],
     for a in ob["adm"]:
         shown += a["words"]
     attr_obs = {a: observe(h) for a, h in r["attr_html"].items()}
+    fault_attr = rec["fields"][fault - 1]["arg"] if fault > 0 else None
     for a, o in attr_obs.items():
+        if a == fault_attr:
+            continue
         shown += o["body"]
         for row in o["rows"]:
             shown += row["words"]
@@ -696,6 +757,15 @@ def judge(rec: Dict[str, Any], fmt: str, docstring: str, r: Dict[str, Any],
         ok = False
         words_ok = False
         if f is as_desc:
+            continue
+        if fidx == fault - 1:
+            # the field's body is the description of the variable it documents and cannot be turned into HTML: the
+            # variable's entry falls back on the plain text of the docstring the field stands in
+            o = attr_obs.get(arg)
+            named_here = [m for m in log if arg and re.search(rf"\b{re.escape(arg)}\b", m)]
+            if (o is None or not subsequence(fw, o["allwords"])) and not named_here:
+                bad.append({"invariant": "FallbackShowsText", "field": {"index": fidx, "kind": kind, "arg": arg},
+                            "expected": fw, "observed": o["allwords"] if o else None, "warnings": log})
             continue
         if f.get("inline"):
             # the variable's own docstring: shown with the variable, or reported as ignored
@@ -747,7 +817,7 @@ def judge(rec: Dict[str, Any], fmt: str, docstring: str, r: Dict[str, Any],
     # expected; no word is shown more often than the source has it
     cs, ce = Counter(shown), Counter(expected_shown)
     total = Counter(word(i) for f in rec["fields"] for i in f["words"])
-    if not bad_field(bad) and (any(cs[x] != ce[x] for x in ce) or any(cs[x] > total[x] for x in cs)):
+    if fault <= 0 and not bad_field(bad) and (any(cs[x] != ce[x] for x in ce) or any(cs[x] > total[x] for x in cs)):
         bad.append({"invariant": "FieldTextExact", "expected": sorted(ce.elements()), "observed": sorted(cs.elements())})
     return bad
 
@@ -759,6 +829,7 @@ CONSTANTS MaxActions = {actions}
           MaxFields = {fields}
           Kinds = {kinds}
           Blocks = {blocks}
+          Hows = {hows}
           Forms = {forms}
           FreeChoice = {free}
 CONSTRAINT Emit
@@ -787,7 +858,7 @@ def tlc_documents(ctx: Ctx, cfg: str, timeout: int = 1500) -> Tuple[List[Dict[st
         if "templates" in rec:
             templates = rec["templates"]
         elif "doc" in rec:
-            docs.setdefault(json.dumps(rec["doc"], sort_keys=True) + rec["host"], rec)
+            docs.setdefault(json.dumps(rec["doc"], sort_keys=True) + rec["host"] + rec.get("how", "direct"), rec)
     if templates is None or not docs:
         raise MachineryError("DocModel emitted nothing")
     return list(docs.values()), templates, r
@@ -809,7 +880,7 @@ def work(args: Tuple[str, List[Dict[str, Any]], Dict[str, Any]]) -> Dict[str, An
         if ds is None:
             skipped += 1
             continue
-        cases.append({"id": i, "host": rec["host"], "docstring": ds, **case_extras(rec)})
+        cases.append({"id": i, "host": rec["host"], "how": rec.get("how", "direct"), "docstring": ds, **case_extras(rec)})
         kept.append(rec)
     out: Dict[str, Any] = {"fmt": fmt, "rendered": 0, "skipped": skipped, "bad": [], "parse_errors": [], "sample": None,
                            "reported": [], "nreported": 0, "nparse": 0}
@@ -817,7 +888,7 @@ def work(args: Tuple[str, List[Dict[str, Any]], Dict[str, Any]]) -> Dict[str, An
         return out
     results = render_batch(fmt, cases)
     for c, rec, r in zip(cases, kept, results):
-        if r["docstring"] != c["docstring"] and not (rec["host"] == "property" and r["docstring"] == ""):
+        if (r["docstring"] or "").rstrip("\n") != c["docstring"] and not (rec["host"] == "property" and r["docstring"] == ""):
             # (a property whose return field became its description has its docstring blanked by the builder)
             raise MachineryError(f"docstring did not reach pydoctor unchanged: {c['docstring']!r} vs {r['docstring']!r}")
         out["rendered"] += 1
@@ -827,7 +898,7 @@ def work(args: Tuple[str, List[Dict[str, Any]], Dict[str, Any]]) -> Dict[str, An
             if len(out["parse_errors"]) < 2:
                 out["parse_errors"].append({"format": fmt, "input": c["docstring"], "log": perr})
         rep: List[Dict[str, Any]] = []
-        bad = judge(rec, fmt, c["docstring"], r, rep)
+        bad = judge(rec, fmt, r["docstring"] or c["docstring"], r, rep)      # (plaintext: exact w.r.t. the docstring pydoctor holds)
         if rep:
             out["nreported"] += len(rep)
             if len(out["reported"]) < 2:
@@ -1011,6 +1082,11 @@ def plan(ctx: Ctx) -> List[Dict[str, Any]]:
                  sample=700),
             dict(name="styles-free<=2", actions=2, depth=1, fields=2, kinds=["param", "returns", "note"], blocks=["para"], free=True,
                  sample=None),
+            dict(name="history-fault<=3", actions=3, depth=1, fields=2, kinds=["param", "return", "note", "ivar"],
+                 blocks=["para", "list", "doctest", "poison"], free=False, sample=2500, hows=["assigned", "inherited", "direct"],
+                 need="history-or-fault"),
+            dict(name="version-directive<=3", actions=3, depth=1, fields=1, kinds=["param", "note"], blocks=["para", "list", "version"],
+                 free=False, sample=1500, formats=["restructuredtext", "google", "numpy", "plaintext"], need="version"),
             dict(name="numpy-see-also<=3", actions=4, depth=1, fields=3, kinds=["seealso", "param"], blocks=["para"], free=False,
                  sample=None, forms=["plain", "nsee"], formats=["numpy"], need_form="nsee"),
             dict(name="rst-consolidated<=3", actions=3, depth=2, fields=2, kinds=CONS_KINDS, blocks=["para", "list", "lit", "doctest"],
@@ -1059,8 +1135,12 @@ def run(ctx: Ctx) -> int:
     for pl in plan(ctx):
         cfg = CFG.format(actions=pl["actions"], depth=pl["depth"], fields=pl["fields"], kinds=tla_set(pl["kinds"]),
                          blocks=tla_set(pl["blocks"]), forms=tla_set(pl.get("forms", ["plain"])),
-                         free="TRUE" if pl["free"] else "FALSE")
+                         hows=tla_set(pl.get("hows", ["direct"])), free="TRUE" if pl["free"] else "FALSE")
         recs, templates, r = tlc_documents(ctx, cfg)
+        if pl.get("need") == "version":
+            recs = [x for x in recs if any(n["t"] == "version" for n in x["doc"])]
+        elif pl.get("need") == "history-or-fault":
+            recs = [x for x in recs if x["how"] != "direct" or x["fault"] >= 0]
         if pl.get("forms"):
             # documents without a consolidated field are the business of the other configurations
             recs = [x for x in recs if any(n["t"] == "field" and (n["form"] == pl["need_form"] if pl.get("need_form")
@@ -1287,8 +1367,9 @@ def replay(ctx: Ctx, path: str) -> int:
             bad.append("PipelineConserves")
     else:
         rec = w["rec"]
-        res = render_batch(w["format"], [{"id": 0, "host": rec["host"], "docstring": w["input"], **case_extras(rec)}])[0]
-        failed = judge(rec, w["format"], w["input"], res)
+        res = render_batch(w["format"], [{"id": 0, "host": rec["host"], "how": rec.get("how", "direct"), "docstring": w["input"],
+                                          **case_extras(rec)}])[0]
+        failed = judge(rec, w["format"], res["docstring"] or w["input"], res)
         bad = sorted({f["invariant"] for f in failed})
         for f in failed:
             print("  ", json.dumps({k: v for k, v in f.items() if k != "warnings"})[:600])
